@@ -256,6 +256,17 @@ def _gen_body(ctx, p, g):
         ctx.require(sorted(len(m) for m in R._edge.values()) == sorted(len(e) for e in p["edges"]), f"{g}: the edge sizes changed")
         ctx.require(all(all(x in R._node for x in m) for m in R._edge.values()) and not nets.inv_H(R), f"{g}: an edge contains a non-node or the incidence invariant is broken")
         ctx.require([set(m) for m in H0._edge.values()] == [set(e) for e in p["edges"]], f"{g}: changed its input")
+    elif g == "empty_into_used":
+        mk = {"H": lambda: xgi.complete_hypergraph(4, order=1), "S": lambda: xgi.SimplicialComplex([[0, 1, 2], [2, 3]]),
+              "D": lambda: xgi.DiHypergraph([([0, 1], [2]), ([2], [3])])}[p["cls"]]
+        used = _run(ctx, mk)
+        used["name"] = "old"
+        f = getattr(xgi, p["f"])
+        R = _run(ctx, (lambda: f(p["n"], create_using=used)) if p["f"] == "trivial_hypergraph" else (lambda: f(create_using=used)))
+        want_nodes = list(range(p["n"])) if p["f"] == "trivial_hypergraph" else []
+        ctx.require(R is used, f"{p['f']}: create_using instance not returned")
+        ctx.require(list(R._node) == want_nodes and len(R._edge) == 0, f"{p['f']}: a populated create_using instance was not emptied first (node set / edges differ from the request)")
+        ctx.require(not nets.inv_H(R) if p["cls"] != "D" else not nets.inv_D(R), f"{p['f']}: incidence invariant broken")
     elif g == "flag_complex_history":
         G = nx.Graph()
         G.add_nodes_from(range(p["n"]))
@@ -280,7 +291,13 @@ def _gen_body(ctx, p, g):
     elif g in ("flag_complex", "flag_complex_d2"):
         G = nx.Graph()
         G.add_nodes_from(range(p["n"]))
-        G.add_edges_from(p["links"])
+        links = [tuple(l) for l in p["links"]]
+        lo = p.get("link_order", "sorted")
+        if lo == "reversed":
+            links = [(b, a) for a, b in reversed(links)]
+        elif lo == "rotated":
+            links = links[1:] + links[:1]
+        G.add_edges_from(links)
         if g == "flag_complex":
             S = _run(ctx, lambda: xgi.flag_complex(G, max_order=p["max_order"], ps=p["ps"]))
             mo = p["max_order"]
@@ -497,6 +514,10 @@ def spec(tier, seed):
     for n, links in small_graphs(4):
         for p2 in (None, 0, 0.5, 1):
             units.append(("C16.gen", {"gen": "flag_complex_d2", "n": n, "links": links, "p2": p2}))
+        if len(links) >= 3:
+            for lo in ("reversed", "rotated"):
+                units.append(("C16.gen", {"gen": "flag_complex_d2", "n": n, "links": links, "p2": None, "link_order": lo}))
+                units.append(("C16.gen", {"gen": "flag_complex", "n": n, "links": links, "max_order": 3, "ps": None, "link_order": lo}))
         for mo in (2, 3):
             for ps in (None, [0], [1], [0.5], [1, 0], [0.5, 0.5]):
                 units.append(("C16.gen", {"gen": "flag_complex", "n": n, "links": links, "max_order": mo, "ps": ps}))
@@ -506,6 +527,9 @@ def spec(tier, seed):
         for which, mo in (("flag_complex", 2), ("flag_complex", 3), ("flag_complex_d2", 2)):
             for edit in ("add", "remove"):
                 units.append(("C16.gen", {"gen": "flag_complex_history", "n": n, "links": links, "max_order": mo, "which": which, "edit": edit}))
+    for cls, fns in (("H", ("empty_hypergraph", "trivial_hypergraph")), ("S", ("empty_simplicial_complex",)), ("D", ("empty_dihypergraph",))):
+        for fn in fns:
+            units.append(("C16.gen", {"gen": "empty_into_used", "cls": cls, "f": fn, "n": 2}))
     for n in (3, 4):
         for pr in (0, 1, 0.5):
             for sd in (1, 2):
